@@ -12,7 +12,9 @@ package main
 //      expr.Compile(…, expr.Patch(v)) it must take effect in the compiled program.
 
 import (
+	"encoding/json"
 	"fmt"
+	"os"
 	"reflect"
 	"sort"
 	"strings"
@@ -485,10 +487,36 @@ func firstDiff(a, b []string) string {
 	return fmt.Sprintf("lengths %d vs %d", len(a), len(b))
 }
 
-// violateKeyed stores at most three violations per key (all are counted)
+// violateKeyed stores at most three violations per key (all are counted).  In replay mode
+// (bin/check <id> --replay file) the whole search is re-run and only violations with the replayed key
+// are reported: the replay reproduces iff the same class of input still fails.
 var keyedSeen = map[string]int{}
+var replayOnlyKey string
+
+func loadReplayKey(c *Ctx) {
+	if c.Replay == "" {
+		return
+	}
+	b, err := os.ReadFile(c.Replay)
+	if err != nil {
+		c.R.Note("replay file unreadable: %v", err)
+		return
+	}
+	var rp struct {
+		Violation struct {
+			Key string `json:"key"`
+		} `json:"violation"`
+	}
+	if json.Unmarshal(b, &rp) == nil && rp.Violation.Key != "" {
+		replayOnlyKey = rp.Violation.Key
+		c.R.Note("replay: reporting only violations with key %s", replayOnlyKey)
+	}
+}
 
 func violateKeyed(r *Report, v Violation) {
+	if replayOnlyKey != "" && v.Key != replayOnlyKey {
+		return
+	}
 	r.Count("violation:"+v.Key, 1)
 	keyedSeen[v.Key]++
 	if keyedSeen[v.Key] <= 3 {
@@ -500,6 +528,7 @@ func violateKeyed(r *Report, v Violation) {
 
 func runC10(c *Ctx) {
 	r := c.R
+	loadReplayKey(c)
 	c10CompilePatch(c)
 	r.Rule = "trees built as Go ast values: every chain slot/slot/kind to depth 3 over all 22 node kinds and all 28 child positions (incl. nil From/To, empty lists), every tree of depth<=3 over {Identifier, Binary, Slice, Array}, random trees to depth 6; parsed sources: 41 contexts x 11 leaves, all context pairs, random compositions; each walked by the real ast.Walk with an idle and with replacing visitors (Enter/Exit x assignment/ast.Patch, at every position of small trees), compared with the Lean model (table from ast/visitor.go) and with the reflection oracle; expr.Compile with expr.Patch replacing an identifier in every context; non-trivial = tree has >= 2 nodes; distinct by (tree, visitor, position)"
 
